@@ -109,16 +109,51 @@ theorem allV_eval {α} (p : α → Bool) (d : α) (l : List (Nat × α)) (h : al
     · exact h.1
     · apply ih; simp [allV, h.2.1, h.2.2]
 
+/-- drop a breakpoint that is immediately overridden by one with the same start
+(adjacent table entries produce such pairs) -/
+def dedup {α} : List (Nat × α) → List (Nat × α)
+  | [] => []
+  | [x] => [x]
+  | (s, v) :: (t, w) :: r => if s = t then dedup ((t, w) :: r) else (s, v) :: dedup ((t, w) :: r)
+
+theorem eval_dedup {α} (d : α) (l : List (Nat × α)) (cp : Nat) : eval d (dedup l) cp = eval d l cp := by
+  induction l using dedup.induct generalizing d with
+  | case1 => rfl
+  | case2 x => rfl
+  | case3 s v w r ih =>
+    simp only [dedup, if_true, eval]
+    rw [ih]
+    simp only [eval]
+    split <;> rfl
+  | case4 s v t w r h ih =>
+    simp only [dedup, h, if_false, eval]
+    split
+    · rfl
+    · rw [ih]; simp only [eval]
+
+/-- every effective value satisfies `p` -/
+def allVD {α} (p : α → Bool) (d : α) (l : List (Nat × α)) : Bool := allV p d (dedup l)
+
+theorem allVD_eval {α} (p : α → Bool) (d : α) (l : List (Nat × α)) (h : allVD p d l = true) (cp : Nat) :
+    p (eval d l cp) = true := by
+  have := allV_eval p d (dedup l) h cp
+  rwa [eval_dedup] at this
+
 /-- two step functions agree everywhere -/
 def agree {α} [DecidableEq α] (n : Nat) (a : α) (r : List (Nat × α)) (b : α) (q : List (Nat × α)) : Bool :=
-  allV id (decide (a = b)) (zipW (fun x y => decide (x = y)) n a r b q)
+  allVD id (decide (a = b)) (zipW (fun x y => decide (x = y)) n a r b q)
 
 theorem agree_eval {α} [DecidableEq α] (n : Nat) (a : α) (r : List (Nat × α)) (b : α)
     (q : List (Nat × α)) (hn : r.length + q.length ≤ n) (h : agree n a r b q = true) (cp : Nat) :
     eval a r cp = eval b q cp := by
-  have h1 := allV_eval id _ _ h cp
+  have h1 := allVD_eval id _ _ h cp
   have e := eval_zipW (fun x y : α => decide (x = y)) n a r b q cp hn
   rw [id, e] at h1
   simpa using h1
+
+/-- first code point at which the two step functions differ (counter-example search for a failed `agree`) -/
+def firstDiff {α} [DecidableEq α] (n : Nat) (a : α) (r : List (Nat × α)) (b : α) (q : List (Nat × α)) : Option Nat :=
+  let z := dedup (zipW (fun x y => decide (x = y)) n a r b q)
+  if decide (a = b) = false then some 0 else (z.find? (fun x => !x.2)).map (·.1)
 
 end Precis.Step
